@@ -115,6 +115,16 @@ func dslText(pol policy, pre preState, port int) string {
 	pull(rMOff, " application \"app1\"\n endpoint_name \"epoff\"\n publish.managed off\n")
 	pull(rMPOff, " application \"app1\"\n endpoint_name \"eppoff\"\n publish off\n")
 	pull(rMDir, " application \"app1\"\n endpoint_name \"epdir\"\n publish.direct off\n")
+	// two-segment routes and the outbound / internal channel types (canonical forms of the spelling part)
+	pull(rHP, "")
+	fmt.Fprintf(&b, "%s {\n%s deliver %q { timeout 1s }\n deliver %q { timeout 1s }\n}\n", rHD2, lim, tgt1, tgt2)
+	pull(rHOff, " publish off\n")
+	pull(rHDir, " publish.direct off\n")
+	pull(rHM, " application \"app2\"\n endpoint_name \"h1\"\n")
+	fmt.Fprintf(&b, "%s {\n%s application \"app2\"\n endpoint_name \"h2\"\n deliver %q { timeout 1s }\n deliver %q { timeout 1s }\n}\n", rHM2, lim, tgt1, tgt2)
+	fmt.Fprintf(&b, "outbound %s {\n%s deliver %q { timeout 1s }\n}\n", rJOut, lim, tgt1)
+	fmt.Fprintf(&b, "internal %s {\n%s pull { path /e%s }\n}\n", rJInt, lim, rJInt)
+	fmt.Fprintf(&b, "internal %s {\n%s application \"app2\"\n endpoint_name \"h3\"\n pull { path /e%s }\n}\n", rJMInt, lim, rJMInt)
 	return b.String()
 }
 
@@ -331,6 +341,8 @@ type caseDesc struct {
 	Repeat  int            `json:"repeat,omitempty"` // batch of Repeat x Kinds[0] with the overrides in At
 	At      map[int]string `json:"at,omitempty"`
 	RawBody string         `json:"raw_body,omitempty"` // body-level probe (Kinds empty)
+	Spell   *spellDesc     `json:"spell,omitempty"`    // spelling part (spell_test.go): the items as sent and their canonical forms
+	Mixed   []caseDesc     `json:"mixed,omitempty"`    // spelling part: the two cases of a mixed reading
 	Request string         `json:"request_body,omitempty"`
 	Status  int            `json:"status,omitempty"`
 	Reply   string         `json:"reply,omitempty"`
@@ -362,6 +374,9 @@ func (d caseDesc) rank() string {
 		if k == "combined_causes" {
 			odd++
 		}
+	}
+	if d.Spell != nil { // spelling part: the shortest request first (the simplest spelling and content)
+		return fmt.Sprintf("%05d|%d|%d|%02d|%05d|%s", d.size(), 0, pol, pre, len(d.Request), d.label())
 	}
 	return fmt.Sprintf("%05d|%d|%d|%02d|%s", d.size(), odd+len(d.At), pol, pre, d.label())
 }
@@ -1281,6 +1296,12 @@ func findPath(name string) (pathSpec, bool) {
 
 // replayCase re-executes one described case on a fresh store and application.
 func replayCase(worker int, d caseDesc) ([]finding, error) {
+	if len(d.Mixed) > 0 {
+		return replayMixed(worker, d)
+	}
+	if d.Spell != nil {
+		return replaySpell(worker, d, readings{})
+	}
 	pre, ok1 := findPre(d.Pre)
 	pol, ok2 := findPolicy(d.Policy)
 	ps, ok3 := findPath(d.Path)
@@ -1382,6 +1403,9 @@ func TestCheck(t *testing.T) {
 	go func() {
 		defer close(schedDone)
 		ts := time.Now()
+		if os.Getenv("VERIF_C15_PART") == "spell" { // development aid: only the spelling part
+			return
+		}
 		r.RunJobs(len(schedJobs(r.Thorough())), 12, runner.Pick(r, 4*time.Minute, 12*time.Minute))
 		r.Set("schedule_part_wall_s", time.Since(ts).Seconds())
 	}()
@@ -1412,9 +1436,9 @@ func TestCheck(t *testing.T) {
 			}
 		}(w)
 	}
-	if os.Getenv("VERIF_C15_PART") == "sched" { // development aid: only the schedule part
+	if part := os.Getenv("VERIF_C15_PART"); part == "sched" || part == "spell" { // development aid: only the schedule / spelling part
 		units = nil
-		r.NotExhaustive("VERIF_C15_PART=sched: the sequential enumeration was skipped")
+		r.NotExhaustive("VERIF_C15_PART=" + part + ": the rest of the check was skipped")
 	}
 	// longest jobs first: the capacity family (SQLite before memory), the probes, then the units by weight
 	for _, cu := range capUnits() {
@@ -1428,6 +1452,13 @@ func TestCheck(t *testing.T) {
 		backend := backend
 		ch <- func(w int) { runProbes(w, backend, c) } // (also in a schedule-only run: the evidence needs evaluations)
 	}
+	onlySpell := os.Getenv("VERIF_C15_PART") == "spell"
+	for _, job := range spellJobs(r, deadline, c) { // the spelling part (spell_test.go)
+		if units == nil && !onlySpell {
+			break
+		}
+		ch <- job
+	}
 	planned := 0
 	for _, u := range units {
 		u := u
@@ -1437,6 +1468,7 @@ func TestCheck(t *testing.T) {
 	close(ch)
 	wg.Wait()
 	r.Set("enumeration_wall_s", time.Since(t0).Seconds())
+	spellFinish(r, c)
 	<-schedDone
 
 	for _, msg := range c.infra {
@@ -1529,14 +1561,14 @@ func TestCheck(t *testing.T) {
 		"in the shape of a real ingress message, other rows untouched except exact drop_oldest evictions of queued rows, depth <= max_depth, listed by GET /messages; "+
 		"reject => structured 4xx/5xx, row dump (all columns) identical, item_index = lowest unacceptable index. "+
 		"distinct_nontrivial = distinct (path, first unacceptable kind or request/body/queue-full cause, its position / batch size, pre-state, observed status/code) classes"+
-		schedRule+"; for the schedule part distinct = (scenario, answers) classes")
+		spellRule+schedRule+"; for the schedule part distinct = (scenario, answers) classes")
 	r.Assume("schedule part: scheduling points are lock / atomic / pooled-connection operations; code between them is thread-local provided it is data-race free (side condition: the free-running -race pass of race_test.go)")
 	r.Assume("schedule part: which item_index an OVERLAPPING request names is not compared (a request that loses a race for an id is refused by the store, which names no item; a request judged item by item during a reload may name a later item); status, code, published count, final rows and the after-request (including its item_index) are")
 	r.Assume("schedule part: error status/code of a refused overlapping publish is recorded, not asserted (a refusal may be duplicate_id or queue_full depending on which check the loser reaches first); asserted is accepted/refused per request and the final rows against every sequential order")
 	r.Assume("error codes and HTTP status values per cause are recorded (observed_verdicts_by_first_cause) but not asserted: the statement only demands a structured error")
 	r.Assume("which queued row drop_oldest evicts is not asserted here (C12); only the number of evictions and that evicted rows were queued")
 	r.Assume("the store is created by the harness (qsys: frozen clock, max_depth 3) and handed to app.VerifBoot; queue_limits in the DSL text mirror it; Postgres is not executed")
-	r.Assume("batches of 4..999 items are covered only by the capacity family (all-acceptable or one identity defect) and the 1000-item probes; route/endpoint sets other than the 10-route configuration in dslText are not enumerated")
+	r.Assume("batches of 4..999 items are covered only by the capacity family (all-acceptable or one identity defect) and the 1000-item probes; route/endpoint sets other than the 19-route configuration in dslText are not enumerated")
 	r.Assume("targets are exact keys: a letter-case variant of an allowed target counts as not allowed (pull dequeues target \"pull\", the dispatcher looks deliveries up by exact URL)")
 	r.Finish()
 }
